@@ -270,6 +270,14 @@ pub(crate) fn validate_subscribe_packet_outbound(packet: &SubscribePacket) -> Gn
         return Err(GneissError::new_packet_validation(PacketType::Subscribe, message));
     }
 
+    if let Some(subscription_identifier) = packet.subscription_identifier {
+        if subscription_identifier == 0 || subscription_identifier > MAXIMUM_VARIABLE_LENGTH_INTEGER as u32 {
+            let message = "validate_subscribe_packet_outbound - subscription identifier out of range";
+            error!("{}", message);
+            return Err(GneissError::new_packet_validation(PacketType::Subscribe, message));
+        }
+    }
+
     validate_user_properties(&packet.user_properties, PacketType::Subscribe, "validate_subscribe_packet_outbound")?;
 
     Ok(())
